@@ -250,7 +250,8 @@ func randomMutant(r *rand.Rand, b []byte) []byte {
 
 // ---------------------------------------------------------------- the replayer
 
-func mutantsPerCase(c *rp.Ctx, format string) int {
+func mutantsPerCase(c *rp.Ctx, cs *mutCase) int {
+	format := cs.F
 	n := 8
 	if c.Tier == "thorough" {
 		n = 64
@@ -262,6 +263,10 @@ func mutantsPerCase(c *rp.Ctx, format string) int {
 	case "jws", "jwe":
 		// verify/decrypt with every key kind is three orders of magnitude slower than the other decoders
 		n = (n + 3) / 4
+	}
+	if len(cs.H)+len(cs.Y) >= 2 {
+		// the two-operator product is large: fewer random mutants on top of each of its members
+		n = (n + 7) / 8
 	}
 	return n
 }
@@ -384,7 +389,7 @@ func mutateBatch(c *rp.Ctx, raws []json.RawMessage) []rp.Result {
 			}
 		}
 		try(base, label, true)
-		for k, m := 0, mutantsPerCase(c, cs.F); k < m; k++ {
+		for k, m := 0, mutantsPerCase(c, cs); k < m; k++ {
 			try(randomMutant(rng, base), fmt.Sprintf("%s + random mutant %d", label, k), false)
 		}
 		if len(fails) == 0 {
